@@ -27,7 +27,12 @@ var injectKinds = []string{"goto", "labelled-break", "labelled-continue", "selec
 	"yield-for-init-in-func-range", "yield-switch-init-in-ptr-range",
 	// index-only range over a NIL pointer to an array: the operand is not evaluated (its length
 	// is a constant), the loop runs len times without dereferencing the pointer
-	"range-nil-ptr-array-index-only", "range-nil-ptr-array-no-variable"}
+	"range-nil-ptr-array-index-only", "range-nil-ptr-array-no-variable",
+	// a range that stays native (its body does not yield: supported) whose body leaves or
+	// continues it with an unlabelled break / continue
+	"native-range-func-break-noyield", "native-range-ptr-continue-noyield", "native-range-func-in-yielding-loop-noyield",
+	// a goto in a plain closure that jumps forward over a range loop (negative control only)
+	"goto-over-range"}
 
 // rawInject returns the source text of the construct (placeholders as in templates).
 func rawInject(kind string, tag func() int, control bool) string {
@@ -74,6 +79,14 @@ func rawInject(kind string, tag func() int, control bool) string {
 		return fmt.Sprintf("var p9 *[3]int\nfor i9 := range p9 {\n\t%s\n}", y("i9"))
 	case "range-nil-ptr-array-no-variable":
 		return fmt.Sprintf("var p9 *[2]int\nfor range p9 {\n\t%s\n}", y("66"))
+	case "native-range-func-break-noyield":
+		return fmt.Sprintf("for v9 := range func(yield func(int) bool) {\n\t_ = yield(1) && yield(2) && yield(3)\n} {\n\tif v9 == 2 {\n\t\tbreak\n\t}\n\tvrt.E(%d, v9)\n}\nvrt.E(%d)\n«Yield»(64)", tag(), tag())
+	case "native-range-ptr-continue-noyield":
+		return fmt.Sprintf("arr9 := [3]int{7, 8, 9}\nfor i9, v9 := range &arr9 {\n\tif i9 == 1 {\n\t\tcontinue\n\t}\n\tvrt.E(%d, v9)\n}\nvrt.E(%d)\n«Yield»(63)", tag(), tag())
+	case "native-range-func-in-yielding-loop-noyield":
+		return fmt.Sprintf("for r9 := 0; r9 < 2; r9++ {\n\ts9 := 0\n\tfor v9 := range func(yield func(int) bool) {\n\t\t_ = yield(1) && yield(2) && yield(3)\n\t} {\n\t\tif v9 == 2 {\n\t\t\tcontinue\n\t\t}\n\t\tif v9 == 3 && r9 == 1 {\n\t\t\tbreak\n\t\t}\n\t\ts9 += v9\n\t}\n\tvrt.E(%d, s9)\n\t«Yield»(s9)\n}", tag())
+	case "goto-over-range":
+		return fmt.Sprintf("if len(\"x\") == 2 {\n\tgoto L9\n}\nfor _, x9 := range []int{1, 2} {\n\tvrt.E(%d, x9)\n}\nL9:\n\tvrt.E(%d)\n%s", tag(), tag(), y("62"))
 	case "yield-switch-init":
 		return fmt.Sprintf("switch «Yield»(98); {\ndefault:\n\tvrt.E(%d)\n}", tag())
 	case "go-yield":
@@ -118,6 +131,9 @@ func Inject(r *prng.R, f *Func, tag func() int) Injection {
 	inj := Injection{Kind: kinds[r.Intn(len(kinds))], Control: r.Chance(1, 4)}
 	if inj.Control && (strings.HasPrefix(inj.Kind, "yield-if") || strings.HasPrefix(inj.Kind, "yield-for-init") || strings.HasPrefix(inj.Kind, "yield-switch-init-in") || strings.HasPrefix(inj.Kind, "yield-elseif") || inj.Kind == "yield-switch-init" || inj.Kind == "go-yield" || inj.Kind == "yield-as-value" || strings.HasSuffix(inj.Kind, "-noyield")) {
 		inj.Control = false // these constructs ARE a yield; there is no yield-free control of them
+	}
+	if inj.Kind == "goto-over-range" {
+		inj.Control = true // in the generator body itself it is just another rejected goto
 	}
 	text := rawInject(inj.Kind, tag, inj.Control)
 	var s *S
